@@ -135,6 +135,8 @@ def prove(module: str, required):
             res["problems"].append(f"{t['theorem']} depends on {bad}")
         else:
             disc += 1
+    if not thms:
+        res["problems"].append(f"{module} contains no property theorem")
     res["theorems"] = thms
     res["obligations"] = len(thms) + len(missing)
     res["discharged"] = disc
